@@ -54,6 +54,18 @@ Proof.
   exists ms, r, tl. split; assumption.
 Qed.
 
+(* "messages with unknown ids are skipped", stated against the byte layout and not against the decoder's own decisions:
+   a complete message whose id is none of the nine BEP3 ids and whose length prefix is within the frame bound is skipped
+   whole, whatever follows it -- id 84 ('T') included, which the pinned Frame::parse took for a handshake *)
+Theorem C06_unknown_id_skipped : forall a b c d id body x,
+  let L := unbe32 a b c d in
+  1 <= L <= 65536 -> 8 < id -> 1 + len body = L ->
+  parse_frame (a :: b :: c :: d :: id :: body ++ x) = PUnknown id (4 + L) /\
+  conn_parse (a :: b :: c :: d :: id :: body ++ x) = PSkip x.
+Proof. intros a b c d id body x. exact (unknown_id_is_skipped a b c d id body x eq_refl). Qed.
+Example C06_unknown_84 : run_conn [[0;0;0;1;84; 0;0;0;1;0]] = ([Choke], RPending, []).
+Proof. vm_compute. reflexivity. Qed.
+
 (* the pinned decoder is refuted: an unknown id whose body has not arrived crashed the connection *)
 Example C06_nonvacuous : parse_frame [0;0;0;5;9;0] = PUnknown 9 9 /\ conn_parse [0;0;0;5;9;0] = PWait
                          /\ run_conn [[0;0;0;5;9;0]; [1;2;3;0;0;0;1;0]] = ([Choke], RPending, []).
@@ -70,3 +82,4 @@ Print Assumptions C06_segmentation.
 Print Assumptions C06_any_two_cuts_agree.
 Print Assumptions C06_meaning_exists.
 Print Assumptions C06_exec_segmentation.
+Print Assumptions C06_unknown_id_skipped.
